@@ -315,6 +315,9 @@ fn make_plan(rng: &mut Rng, seed: u64) -> Plan {
         // variant 2: ... and then the user re-registers one script from an older block (partial): filter progress is rewound BELOW
         // the fork point while the index of the other scripts still reaches the old tip - the switch has to roll that index back
         if variant == 2 { ops.insert(6, Op::SetScripts { cmd: 1, list: vec![(0, true, fork_at.saturating_sub(6))] }); }
+        // right after the switch a batch of exactly ONE filter: the block at the rollback point (scripts stand AT it, filter progress
+        // one below) has to be examined for the new branch
+        if let Some(pos) = ops.iter().position(|o| matches!(o, Op::Prove { on_fork: true, .. })) { ops.insert(pos + 1, Op::Filters { batch: 1 }); ops.insert(pos + 2, Op::Download); }
         // last-N 4: the switch is 7 blocks ahead (sampled regime, the request starts at the stored tip, the honest answer carries a
         // reorg section) and 3 blocks deep (the fork point is remembered): the one path on which commit_prove_state rolls back
         return Plan { seed, len, fork_at, ops, last_n: 4 };
@@ -370,7 +373,7 @@ fn judge(w: &mut World, starts: &[(usize, bool, u64)]) -> Snapshot {
         let missing: Vec<_> = expect.iter().filter(|c| !got.contains(c)).map(|c| (c.0, c.1, c.2)).collect();
         let phantom: Vec<_> = got.iter().filter(|c| c.0 > from && !live_any.contains(c)).map(|c| (c.0, c.1, c.2)).collect();
         if !missing.is_empty() || !phantom.is_empty() {
-            problems.push(format!("[C08-activity-lost-after-crash]{} script {} ({}) is reported as filtered up to {} but its index misses {:?} and has extra {:?}", if w.on_fork && !phantom.is_empty() { " [C04-index-keeps-abandoned-branch]" } else { "" }, sid + 1, if *is_lock { "lock" } else { "type" }, number, missing, phantom));
+            problems.push(format!("[C08-activity-lost-after-crash]{} script {} ({}) is reported as filtered up to {} but its index misses {:?} and has extra {:?}", if w.on_fork && !phantom.is_empty() { " [C04-index-keeps-abandoned-branch]" } else if w.on_fork && !missing.is_empty() { " [C04-index-misses-new-branch]" } else { "" }, sid + 1, if *is_lock { "lock" } else { "type" }, number, missing, phantom));
         }
     }
     // C16: whatever get_transaction reports as committed is committed by the block it names
